@@ -199,8 +199,12 @@ def evaluate(case, hist=None, info=None):
                     hist["sectiondata_copies"] += 1
                     if a != b:
                         k = next((i for i, (x, y) in enumerate(zip(a, b)) if x != y), min(len(a), len(b)))
+                        pre = bytearray(len(a))
+                        for oi2, si2, off2 in minfo.get(arg, {"pieces": []})["pieces"]:
+                            d2 = bytes(objs[oi2].sections[si2].data)
+                            pre[off2 : off2 + len(d2)] = d2
                         failures.append(("SECTIONDATA(%s): the copy differs from the linked section at offset %d (copy %s, section %s): the copy's references are not resolved" % (
-                            arg, k, b[k : k + 8].hex(), a[k : k + 8].hex()), {"type": "sectiondata", "offset": k}))
+                            arg, k, b[k : k + 8].hex(), a[k : k + 8].hex()), {"type": "sectiondata", "offset": k, "copy_is_unrelocated": bytes(pre) == b}))
     info["checked"] = checked
     info["nontrivial"] = nontrivial
     return failures
@@ -210,7 +214,36 @@ def evaluate(case, hist=None, info=None):
 # known findings
 
 
+# field width in bits and unit in bytes of the pc-relative fields whose writers go through
+# wrap_negative / Token.__setitem__ (both accept the union of the signed and the unsigned range)
+ALIAS = {"b_imm12": (12, 2), "b_imm20": (20, 2), "bc_imm11": (11, 2), "bc_imm8": (8, 2), "jmp8": (8, 1), "imm24": (24, 4), "rel32": (32, 1)}
+
+
 def classify_one(case, msg, det):
+    t = det.get("type")
+    if t == "sectiondata":
+        # KF1: the copy is taken before relocation: it equals the unrelocated merged input
+        return "C11-KF1" if det.get("copy_is_unrelocated") else None
+    if t in ALIAS and "got" in det:
+        # KF2: the distance does not fit the signed field but fits the unsigned one; the writer wraps it
+        n, unit = ALIAS[t]
+        rep = relocref.representable(case["target"], t, det["S"], det["A"], det["P"])
+        if rep is False and abs(det["got"] - det["want"]) == (1 << n) * unit:
+            return "C11-KF2"
+    if t == "bl_imm11" and "got" in det:
+        # KF3: J1/J2 stay 1, i.e. I1 = I2 = S: only the low 22 bits of the distance are encoded
+        d = det["want"] - (det["P"] + 4)
+        if (1 << 22) <= abs(d) < (1 << 24):
+            low = d % (1 << 22)
+            if det["got"] - (det["P"] + 4) == (low if d >= 0 else low - (1 << 22)):
+                return "C11-KF3"
+    if t == "b_imm11_imm6" and "got" in det:
+        # KF4: S, J1, J2 are all taken from bit 18 of the distance
+        d = det["want"] - (det["P"] + 4)
+        if (1 << 18) <= abs(d) < (1 << 20):
+            low = d & 0x7FFFF
+            if det["got"] - (det["P"] + 4) == (low - (1 << 19) if low >> 18 else low):
+                return "C11-KF4"
     return None
 
 
